@@ -14,7 +14,7 @@ under C15 (leaf contracts -> step contracts -> lean/Codecs.lean) reaches the puz
 With the URL frame (c16_url_frame.py: the body is serialised under (height, width) and written after name/WIDTH/HEIGHT;
 the decoder hands the body back under HEIGHT = third field, WIDTH = second field) and `C15.problem_roundtrip`, this gives
 deserialize_<puzzle>(serialize_<puzzle>(p)) == p for every board p in the combinator's domain, for the puzzles listed as
-covered in C15's evidence (nurikabe, nurimisaki, sudoku, slitherlink, masyu).  The second half of C16 (the text is what
+covered in C15's evidence (nurikabe, nurimisaki, sudoku, slitherlink, masyu; yajilin on the domain of c16_yajilin_clue.py).  The second half of C16 (the text is what
 puzz.link's own decoder reads) stays with the bounded tier and the independent decoder specs/pzpr.py.
 """
 import z3 as _z3
